@@ -139,7 +139,10 @@ def run_roundtrips(ctx, FST, src, label, rnd, n_targets):
                 else:
                     ctx.count('own_src_parsed')
                     rr = r if not isinstance(r, list) else None
-                    if rr is not None and not isinstance(rr, (ast.boolop, ast.operator, ast.unaryop, ast.cmpop)) and Sn(rr) != Sn(node):
+                    if rr is not None and not isinstance(rr, (ast.boolop, ast.operator, ast.unaryop, ast.cmpop)) and Sn(rr) != Sn(node) and \
+                            any(isinstance(x, ast.Constant) and isinstance(x.value, str) and '\\\n' in (ast.get_source_segment(src, x) or '') for x in ast.walk(node)):
+                        ctx.violation('docstring-dedent-alters-value-after-backslash-continuation', f'{cls}.own_src(): a docstring line ending in a backslash continuation is re-indented and the string VALUE changes', case)
+                    elif rr is not None and not isinstance(rr, (ast.boolop, ast.operator, ast.unaryop, ast.cmpop)) and Sn(rr) != Sn(node):
                         ctx.violation(f'own_src-parses-to-other-structure:{cls}', f'{cls}.own_src() = {short(os_, 160)!r} parses to {short(Sn(rr), 160)} not {short(Sn(node), 160)}', case)
 
 
